@@ -293,6 +293,17 @@ func fingerprint(r *ctlrig.Rig, cluster string) []string {
 		}
 		fp = append(fp, fmt.Sprintf("schema %s: %s type=%s burst-admitted=%d", n, fc.String(), fc.Type(), adm))
 	}
+	// the strategy in force and the configuration each schema's limiter was synced with (a strategy does not show in what
+	// a probe admits while the limiter runs in local mode, but it decides which limiter is charged in remote mode)
+	sc := ci.VerifSchemaConfigs()
+	var scn []string
+	for n := range sc {
+		scn = append(scn, n)
+	}
+	sort.Strings(scn)
+	for _, n := range scn {
+		fp = append(fp, fmt.Sprintf("schema-config %s: %s", n, sc[n]))
+	}
 	for _, g := range gates {
 		fp = append(fp, fmt.Sprintf("gate %s=%v", g, ci.FeatureEnabled(g)))
 	}
@@ -614,6 +625,68 @@ func queueConformance(c *ev.Check) {
 	c.Add("queue_traces", 1)
 }
 
+// ------------------------------------------------------------------ delivery conformance (real informer, queue, worker)
+// The histories above deliver objects to the controller's sync function directly (the harness plays informer and
+// worker). That the real delivery path hands every change to that function is decided here, end to end: fake API ->
+// client-go reflector + shared informer -> syncqueue.ResourceEventHandler -> queue -> worker. Each of create, update
+// and delete happens either announced on the open watch or while the watch is down (the informer then reports it
+// after a relist, a deletion as a DeletedFinalStateUnknown tombstone): all 8 combinations, a bystander cluster along.
+
+func deliveryTasks(c *ev.Check) []ev.Task {
+	var out []ev.Task
+	modes := []string{"watched", "in-gap"}
+	for m := 0; m < 8; m++ {
+		seq := []string{modes[m&1], modes[m>>1&1], modes[m>>2&1]}
+		name := "delivery/create-" + seq[0] + ",update-" + seq[1] + ",delete-" + seq[2]
+		out = append(out, ev.Task{Name: name, Run: func() { deliveryHistory(c, name, seq) }})
+	}
+	return out
+}
+
+func deliveryHistory(c *ev.Check, name string, seq []string) {
+	l := ctlrig.NewLive()
+	defer l.Close()
+	replay := map[string]interface{}{"task": name}
+	endpointsOf := func(n string) string {
+		ci, ok := l.C.Get(n)
+		if !ok {
+			return "<absent>"
+		}
+		eps := ci.AllEndpoints()
+		sort.Strings(eps)
+		return strings.Join(eps, ",")
+	}
+	l.Watched("create", baseA())
+	if !l.Wait(func() bool { return endpointsOf("a") == e1 }, 20*time.Second) {
+		c.EngineError("delivery conformance: the bystander cluster never appeared: " + endpointsOf("a"))
+	}
+	v1, v2 := objB(), objB()
+	v2.Spec.Servers = []proxyv1alpha1.UpstreamClusterServer{{Endpoint: "https://127.0.0.1:4"}}
+	steps := []struct {
+		kind string
+		obj  *proxyv1alpha1.UpstreamCluster
+		want string
+	}{{"create", v1, "https://127.0.0.1:3"}, {"update", v2, "https://127.0.0.1:4"}, {"delete", v2, "<absent>"}}
+	for i, st := range steps {
+		if seq[i] == "watched" {
+			l.Watched(st.kind, st.obj)
+		} else if !l.InGap(st.kind, st.obj) {
+			c.EngineError("delivery conformance: the reflector did not open a new watch within 60 s")
+		}
+		c.Add("transitions", 1)
+		if !l.Wait(func() bool { return endpointsOf("b") == st.want }, 20*time.Second) {
+			c.Violation("delivery/"+st.kind+"-"+seq[i]+"-never-processed", fmt.Sprintf("%s of cluster b %s (history %s): 20 s after the informer learned of it the gateway still has endpoints %q for b, the latest object says %q", st.kind, map[string]string{"watched": "announced on the open watch", "in-gap": "while the watch was down, reported by the informer after its relist"}[seq[i]], name, endpointsOf("b"), st.want), replay)
+			return
+		}
+		if got := endpointsOf("a"); got != e1 {
+			c.Violation("delivery/bystander-changed", fmt.Sprintf("after %s of b the bystander cluster a has endpoints %q", st.kind, got), replay)
+			return
+		}
+	}
+	c.Add("states", 4)
+	c.Add("queue_traces", 1)
+}
+
 func main() {
 	c := ev.Start("C11", "model_checking")
 	c.Assume = []string{
@@ -645,6 +718,7 @@ func main() {
 		tasks = append(tasks, xstate.Tasks(c, sp, c.Pick(3, 4), 8)...)
 	}
 	tasks = append(tasks, ev.Task{Name: "queue-conformance", Run: func() { queueConformance(c) }})
+	tasks = append(tasks, deliveryTasks(c)...)
 	tasks = append(tasks, xstate.Tasks(c, all, c.Pick(3, 4), 32)...)
 	for _, sp := range specs[1:] {
 		d := c.Pick(4, 5)
